@@ -100,6 +100,7 @@ pub fn run_c06(run: &Run) {
     run.assume("<= 3 variables at depth 4-5 (quick) / <= 4 variables (thorough); merging states with equal node tables is justified by the memo invariant checked in C11 on every transition");
     let flags = Flags { canonical: true, functions: false, memo: false, queries: false };
     explorations(run, flags);
+    scale_sections(run, false);
     run.extra("states_are", json!("distinct node tables reached"));
     run.extra("transitions_are", json!("real operations executed on a store and checked"));
 }
@@ -109,6 +110,7 @@ pub fn run_c07(run: &Run) {
     run.assume("<= 3 variables (quick) / <= 4 (thorough) in the exploration; 3 variables in the flat sweep");
     let flags = Flags { canonical: false, functions: true, memo: false, queries: false };
     explorations(run, flags);
+    scale_sections(run, true);
     // flat sweep
     let n = 3usize;
     let total = 256u64 * 256;
@@ -189,7 +191,220 @@ pub fn run_c07(run: &Run) {
     run.extra("transitions_are", json!("real operations executed and compared with the reference operation on truth tables"));
 }
 
+/// all restrictions of function tt (n variables) on a store that was exported and re-imported (serde + fix_import and
+/// node-list rebuild) after the function was built
+pub fn reimport_restrict_case(tt: TT, n: usize, w: usize) -> Vec<(String, String)> {
+    let mut out = vec![];
+    for how in 0..2 {
+        let r = guard(|| {
+            let mut b = Bdd::new();
+            let h = build_fm(&mut b, &write_fm(tt, n, w));
+            apply(&mut b, if how == 0 { &Op::ReimportSerde } else { &Op::ReimportNodes });
+            let mut found = vec![];
+            for v in 0..n {
+                for val in [false, true] {
+                    let before = b.nodes.clone();
+                    let Ok(bt) = all_tts(&before, n) else { continue };
+                    let op = Op::Restrict(h.value() as u16, v as u8, val);
+                    let res = apply(&mut b, &op);
+                    check_transition(&before, &bt, &op, res, &b, n, &Flags { canonical: false, functions: true, memo: false, queries: false }, &mut found);
+                }
+            }
+            found
+        });
+        match r {
+            Ok(f) => out.extend(f.into_iter().map(|(k, m)| (format!("reimported:{}", k), format!("{} (after {})", m, if how == 0 { "serde + fix_import" } else { "node-list rebuild" })))),
+            Err(m) => out.push(("reimported:panic".into(), m)),
+        }
+    }
+    out
+}
+
+/// chain formula number k over n variables: x0 o1 (x1 o2 (... x_{n-1})), operators from {and, or, xor, imp}
+pub fn chain_fm(n: usize, mut k: u64) -> Fm {
+    let mut f = Fm::Atom(n - 1);
+    for i in (0..n - 1).rev() {
+        let op = [0usize, 1, 4, 2][(k % 4) as usize];
+        k /= 4;
+        f = Fm::bin(op, Fm::Atom(i), f);
+    }
+    f
+}
+
+/// deep diagrams (too many variables for truth tables): every restriction of a chain, and connectives of two chains,
+/// compared exactly with an independent reference BDD
+pub fn deep_case(n: usize, k: u64) -> Vec<(String, String)> {
+    use crate::refbdd::*;
+    let mut out = vec![];
+    let f = chain_fm(n, k);
+    let g = chain_fm(n, k.rotate_left(7) ^ 0x5bd1e995);
+    let r = guard(|| {
+        let mut found: Vec<(String, String)> = vec![];
+        let mut b = Bdd::new();
+        let hf = build_fm(&mut b, &f);
+        let hg = build_fm(&mut b, &g);
+        let mut rb = RefBdd::new();
+        let rf = rb.compile(&f, &|x| x);
+        let rg = rb.compile(&g, &|x| x);
+        if let Err(e) = same_function(&b.nodes, hf, &rb, rf) {
+            found.push(("deep:build".into(), e));
+        }
+        for v in 0..n {
+            for val in [false, true] {
+                let hr = b.restrict(hf, var(v), val);
+                let rr = rb.restrict(rf, v, val);
+                if let Err(e) = same_function(&b.nodes, hr, &rb, rr) {
+                    found.push(("deep:restrict".into(), format!("restrict(.., {}, {}) of a chain over {} variables is not the cofactor: {}", v, val, n, e)));
+                }
+            }
+        }
+        for op in 0..5u8 {
+            let hr = apply(&mut b, &Op::Bin(op, hf.value() as u16, hg.value() as u16)).unwrap();
+            let rr = rb.apply(op, rf, rg);
+            if let Err(e) = same_function(&b.nodes, hr, &rb, rr) {
+                found.push(("deep:connective".into(), format!("{} of two chains over {} variables: {}", BIN_NAMES[op as usize], n, e)));
+            }
+        }
+        if let Err(e) = check_structure(&b.nodes) {
+            found.push(("deep:not-canonical".into(), e));
+        }
+        found
+    });
+    match r {
+        Ok(f) => out.extend(f),
+        Err(m) => out.push(("deep:panic".into(), m)),
+    }
+    out
+}
+
+/// a store with more than 2^16 memoised results and nodes: pairwise conjunctions over many variables; canonicity of
+/// the whole table, and re-requests of existing formulas must return the handles issued before
+pub fn wide_store_case(pairs: usize) -> Vec<(String, String)> {
+    let mut out = vec![];
+    let r = guard(|| {
+        let mut found: Vec<(String, String)> = vec![];
+        let mut b = Bdd::new();
+        let mut issued = vec![];
+        for i in 0..pairs {
+            let x = b.variable(var(i));
+            let y = b.variable(var(i + 1));
+            let a = b.and(x, y);
+            let o = b.xor(x, y);
+            issued.push((x, a, o));
+        }
+        if let Err(e) = check_structure(&b.nodes) {
+            found.push(("wide:not-canonical".into(), e));
+        }
+        let d = b.verif_dump();
+        if d.cache.len() != b.nodes.len() - 2 {
+            found.push(("wide:unique-table".into(), format!("unique table has {} entries for {} inner nodes", d.cache.len(), b.nodes.len() - 2)));
+        }
+        let len = b.nodes.len();
+        for (i, (x, a, o)) in issued.iter().enumerate().step_by(97) {
+            let x2 = b.variable(var(i));
+            let y2 = b.variable(var(i + 1));
+            let a2 = b.and(x2, y2);
+            let o2 = b.xor(x2, y2);
+            if x2 != *x || a2 != *a || o2 != *o {
+                found.push(("wide:second-handle".into(), format!("re-requesting formulas over variable {} gives handles {:?}, issued before were {:?}", i, (x2, a2, o2), (x, a, o))));
+                break;
+            }
+        }
+        if b.nodes.len() != len {
+            found.push(("wide:duplicates-appended".into(), format!("re-requesting existing formulas grew the node table from {} to {}", len, b.nodes.len())));
+        }
+        found
+    });
+    match r {
+        Ok(f) => out.extend(f),
+        Err(m) => out.push(("wide:panic".into(), m)),
+    }
+    out
+}
+
+fn scale_sections(run: &Run, c07: bool) {
+    let quick = run.quick();
+    if c07 {
+        // re-imported stores: every function of 3 and 4 variables, all restrictions
+        for n in [3usize, 4] {
+            let total = (full(n) as u64 + 1) * 2;
+            let res = run.par_family(
+                &format!("all functions of {} variables on re-imported stores (serde + fix_import, node list), all restrictions", n),
+                total,
+                || 0u64,
+                |st, k| {
+                    let tt = (k / 2) as TT;
+                    *st += 2 * 2 * n as u64;
+                    for (kind, msg) in reimport_restrict_case(tt, n, if k % 2 == 0 { 0 } else { 5 }) {
+                        run.violation(&kind, format!("{} (function {:#x} over {} variables)", msg, tt, n), json!({"type": "reimport-restrict", "tt": tt, "vars": n, "writer": if k % 2 == 0 { 0 } else { 5 }}));
+                    }
+                },
+                &|k| json!({"type": "reimport-restrict", "tt": k / 2, "vars": n, "writer": if k % 2 == 0 { 0 } else { 5 }}),
+            );
+            for st in res {
+                run.add_counts(0, st, st, 0);
+            }
+        }
+    }
+    // deep diagrams
+    let plan: Vec<(usize, u64)> = if quick { vec![(8, 1), (11, 64)] } else { vec![(8, 1), (10, 1), (12, 16)] };
+    for (n, stride) in plan {
+        let all = 4u64.pow(n as u32 - 1);
+        let total = all / stride;
+        let res = run.par_family(
+            &format!("deep diagrams: {} of {} operator chains over {} variables, every restriction and connective vs. a reference BDD", total, all, n),
+            total,
+            || 0u64,
+            |st, k| {
+                *st += 1;
+                for (kind, msg) in deep_case(n, k * stride + run.seed % stride) {
+                    run.violation(&kind, format!("{} (chain #{} over {} variables)", msg, k * stride + run.seed % stride, n), json!({"type": "deep", "vars": n, "index": k * stride + run.seed % stride}));
+                }
+            },
+            &|k| json!({"type": "deep", "vars": n, "index": k * stride + run.seed % stride}),
+        );
+        for st in res {
+            run.add_counts(st, st * (2 * n as u64 + 5), st * (2 * n as u64 + 5), st);
+        }
+    }
+    if !c07 {
+        // wide stores beyond 2^16 memo entries / nodes
+        let sizes: Vec<usize> = if quick { vec![40_000, 90_000] } else { vec![40_000, 90_000, 300_000] };
+        let res = run.par_family(
+            "wide stores: pairwise formulas over up to 300k variables (more than 2^16 memo entries and nodes), canonicity and handle stability",
+            sizes.len() as u64,
+            || 0u64,
+            |st, k| {
+                *st += sizes[k as usize] as u64;
+                run.heartbeat();
+                for (kind, msg) in wide_store_case(sizes[k as usize]) {
+                    run.violation(&kind, format!("{} (store with {} variable pairs)", msg, sizes[k as usize]), json!({"type": "wide", "pairs": sizes[k as usize]}));
+                }
+            },
+            &|k| json!({"type": "wide", "pairs": sizes[k as usize]}),
+        );
+        for st in res {
+            run.add_counts(1, st * 4, st * 4, 0);
+        }
+        // bridge conversions at scale: the programs of C09 (2^17-node diagram, 300 statements), judged for canonicity
+        // and for the functions of their handles
+        for (kind, msg) in crate::c09::scale_programs(run) {
+            run.violation(&format!("bridge:{}", kind), msg, json!({"type": "bridge-scale"}));
+        }
+    }
+}
+
 pub fn replay(prop: &str, c: &Value) -> Vec<(String, String)> {
+    match c["type"].as_str().unwrap_or("") {
+        "reimport-restrict" => return reimport_restrict_case(c["tt"].as_u64().unwrap_or(0) as TT, c["vars"].as_u64().unwrap_or(3) as usize, c["writer"].as_u64().unwrap_or(0) as usize),
+        "deep" => return deep_case(c["vars"].as_u64().unwrap_or(8) as usize, c["index"].as_u64().unwrap_or(0)),
+        "wide" => return wide_store_case(c["pairs"].as_u64().unwrap_or(70000) as usize),
+        "bridge-scale" => {
+            let run = Run::new(prop, Tier::Quick, 0);
+            return crate::c09::scale_programs(&run);
+        }
+        _ => {}
+    }
     let flags = match prop {
         "C06" => Flags { canonical: true, functions: false, memo: false, queries: false },
         "C07" => Flags { canonical: false, functions: true, memo: false, queries: false },
